@@ -13,7 +13,10 @@
        not counted although they are within the slack).
     3. `a < mode`, search: returns `Σ_{k ≤ a ∨ r ≤ k} f k`, `r = binary_search(upper)`, with
        `massLE p ≤ result ≤ massLE (p/e)`.
-    4. `a > mode`, shortcut `f 0 > p / e`: returns `1 − F (a−1) = massLE p`.
+    4. `a > mode`, shortcut `f 0 > p / e`: returns `1 − F (a−1) = massLE p` (`a = mode` is always
+       branch 1 under the premise, `twoSidedM_at_mode`; for `a = 0` the code takes the upper tail
+       to be the constant 1 and never forms `a − 1`: `twoSidedM_zero_cell`, and for the generated
+       code on every carrier `fisher_twosided_zero_cell_no_underflow`).
     5. `a > mode`, search: returns `Σ_{k ≤ r ∨ a ≤ k} f k`, `r = binary_search(lower)`, with
        `massLT (p·e) ≤ result ≤ massLE (p/e)`; `massLE p ≤ result` holds only under an additional
        gap hypothesis and is FALSE in general (`twoSided_underinclusion_counterexample`: the
@@ -196,8 +199,9 @@ theorem twoSided_upper_shortcut (S : UnimodalPmfSpec f F lo hi mode) (n a : ℤ)
   · unfold twoSidedM
     have hu : usub a 1 = a - 1 := by
       unfold usub; rw [if_neg (by have := S.mode_nonneg; omega)]
+    have ha1 : ¬ a = 0 := by have := S.mode_nonneg; omega
     rw [if_neg (fun h => hfar ((near_mode_iff S a ha0 e).mp h)), if_neg (by omega), if_pos hsc,
-      hu, fts_lit_one]
+      if_neg ha1, hu, fts_lit_one]
   · rw [S.one_sub_cdf]
     unfold massLE
     apply Finset.sum_congr _ (fun _ _ => rfl)
@@ -243,8 +247,9 @@ theorem twoSided_upper_search (S : UnimodalPmfSpec f F lo hi mode) (n a : ℤ) (
     unfold twoSidedM
     have hu : usub a 1 = a - 1 := by
       unfold usub; rw [if_neg (by have := S.mode_nonneg; omega)]
+    have ha1 : ¬ a = 0 := by have := S.mode_nonneg; omega
     rw [if_neg (fun h => hfar ((near_mode_iff S a ha0 e).mp h)), if_neg (by omega), if_neg hsc,
-      hu, hr, fts_lit_one]
+      if_neg ha1, hu, hr, fts_lit_one]
     have hsum : 1 - F (a - 1) + F r = ∑ k ∈ (Icc lo hi).filter (fun k => k ≤ r ∨ a ≤ k), f k := by
       rw [S.cdf_filter r, S.one_sub_cdf (a - 1), add_comm,
         ← filter_le_add_filter_ge f (Icc lo hi) r a (by omega)]
@@ -382,6 +387,39 @@ theorem twoSidedM_eq_textbook (S : UnimodalPmfSpec f F lo hi mode) (n a : ℤ) (
 
 end main
 
+/-! ### the zero observed cell (`table[0] = 0`) and the observed cell at the mode -/
+
+/-- **Zero observed cell, premise-free**: for EVERY `f`, `F`, `n`, `e` and every `mode ≥ 0` the
+    two-sided arm at `a = 0` is the expression on the right, in which `usub 0 1` (Rust's
+    `table[0] - 1` on a zero `u64`) does not occur: on the `a ≥ mode` side the upper tail `P(X ≥ 0)`
+    is the constant `1`.  No unimodality is assumed, so this also covers a failing near-mode test at
+    `a = 0 = mode` (which the premise `UnimodalPmfSpec` excludes, but IEEE NaN does not). -/
+theorem twoSidedM_zero_cell (f F : ℤ → ℝ) (n mode : ℤ) (e : ℝ) :
+    twoSidedM f F n mode 0 e =
+      if |f 0 - f mode| / max (f 0) (f mode) ≤ 1 - e then 1
+      else if 0 < mode then
+        (if f 0 / e < f n then F 0 else F 0 + 1 - F (usub (bsearchM f n mode (f 0) e true) 1))
+      else if f 0 / e < f 0 then 1
+      else min (1 + F (bsearchM f n mode (f 0) e false)) 1 := by
+  unfold twoSidedM
+  simp only [fts_lit_one, if_true]
+
+/-- **Observed cell at the mode** (in particular `a = 0 = mode`, the case in which the source
+    used to evaluate `table[0] - 1` when the near-mode test failed): the code returns 1 and this IS
+    the textbook two-sided p-value — every table is at most as probable as the observed one — so
+    `massLE p = result = massLE (p/e)`. -/
+theorem twoSidedM_at_mode {f F : ℤ → ℝ} {lo hi mode : ℤ} (S : UnimodalPmfSpec f F lo hi mode)
+    (n : ℤ) (e : ℝ) (he0 : 0 < e) (he1 : e ≤ 1) :
+    twoSidedM f F n mode mode e = 1 ∧ massLE f lo hi (f mode) = 1 ∧
+      massLE f lo hi (f mode / e) = 1 := by
+  have hpos := S.mode_pos
+  obtain ⟨h1, h2⟩ := twoSided_near_mode S n mode S.mode_nonneg e he0 (by nlinarith)
+  refine ⟨h1, ?_, h2⟩
+  unfold massLE
+  rw [Finset.filter_true_of_mem, S.total]
+  intro k hk
+  exact S.le_at_mode k (le_trans S.lo_nonneg (mem_Icc.mp hk).1)
+
 /-! ### the generated code, relative to the premise -/
 
 section rel
@@ -481,6 +519,28 @@ theorem fisher_twosided_shortcut_above_rel (a b c d : ℕ)
     (le_min (by omega) (by omega)) _ (by rw [fisher_epsilon_val]; norm_num) (by rw [fisher_epsilon_val]; norm_num)
     hfar hsc
   exact ⟨by rw [h1, h2], h3⟩
+
+/-- **observed cell at the mode** (covers `a = 0 = mode`, e.g. every table `[0, b, c, d]` with
+    `(c+1)(b+1) < b+c+d+2`), for the generated code: the value returned is 1 and it is the
+    textbook two-sided p-value `Σ_{f k ≤ f a} f k` -/
+theorem fisher_twosided_at_mode_rel (a b c d : ℕ)
+    (hz : ¬ zeroMargin (a : ℤ) b c d)
+    (S : UnimodalPmfSpec (hpmf (tableDist a b c d)) (hcdf (tableDist a b c d))
+      (max 0 ((a : ℤ) - d)) (min ((a : ℤ) + b) ((a : ℤ) + c)) (tableMode a b c d))
+    (ham : (a : ℤ) = tableMode a b c d) :
+    T.fisher.fishers_exact (α := ℝ) [(a : ℤ), b, c, d] Alternative.TwoSided
+      = .ok (massLE (hpmf (tableDist a b c d)) (max 0 ((a : ℤ) - d))
+          (min ((a : ℤ) + b) ((a : ℤ) + c)) (hpmf (tableDist a b c d) a)) ∧
+    massLE (hpmf (tableDist a b c d)) (max 0 ((a : ℤ) - d))
+          (min ((a : ℤ) + b) ((a : ℤ) + c)) (hpmf (tableDist a b c d) a) = 1 := by
+  rw [fishers_exact_twosided_eq a b c d (by omega) (by omega) (by omega) (by omega) hz]
+  obtain ⟨h1, h2, -⟩ := twoSidedM_at_mode S ((a : ℤ) + c) (T.fisher.EPSILON (α := ℝ))
+    (by rw [fisher_epsilon_val]; norm_num) (by rw [fisher_epsilon_val]; norm_num)
+  rw [← ham] at h1 h2
+  have h1' : twoSidedM (hpmf (tableDist a b c d)) (hcdf (tableDist a b c d)) ((a : ℤ) + c)
+      (tableMode a b c d) a (T.fisher.EPSILON (α := ℝ)) = 1 := by
+    rw [← ham]; exact h1
+  exact ⟨by rw [h1', h2], h2⟩
 
 /-! ### (a) the generated `binary_search`, relative to the shape of the pmf -/
 
